@@ -228,7 +228,61 @@ func frameField(v ssa.Value, name string) ssa.Value {
 	return nil
 }
 
+// ruleMetaFrame (R16.10): the META frame tells the follower what it is about to receive and where it
+// belongs: the follower names the snapshot / the first log segment after the frame's offset and size.
+// They must be the reader's own — reader.Left() and reader.Size() — not the offset that was asked for:
+// a snapshot reader starts at the snapshot's offset whatever was requested, and a follower that files
+// it under the requested offset shifts every later byte.
+func ruleMetaFrame(w *core.World, r *core.Report, sd *ssa.Function) {
+	r.Rule("R16.10", "the META frame carries the reader's own start offset, size and kind", 1)
+	meta := int64(0)
+	if k, ok := pbCode(w, "SyncResponse_META"); ok {
+		meta = k
+	}
+	n := 0
+	for _, g := range reachableFuncs(sd) {
+		if g != sd && !(core.Transparent != nil && core.Transparent(g)) && g.Parent() == nil {
+			continue
+		}
+		for _, in := range core.OwnInstrs(g) {
+			a, ok := in.(*ssa.Alloc)
+			if !ok || !strings.HasSuffix(core.TypeName(a.Type()), "SyncResponse") {
+				continue
+			}
+			code, ok := frameCode(a)
+			if !ok || code != meta {
+				continue
+			}
+			// only frames that announce data (a Meta part is set)
+			if frameField(a, "Meta") == nil {
+				continue
+			}
+			n++
+			isReaderCall := func(v ssa.Value, method string) bool {
+				if v == nil {
+					return false
+				}
+				for _, x := range argValues(core.Unwrap(v), sd) {
+					c, ok := core.Unwrap(x).(*ssa.Call)
+					if ok && c.Call.IsInvoke() && c.Call.Method.Name() == method && strings.HasSuffix(core.TypeName(c.Call.Value.Type()), "ChannelReader") {
+						continue
+					}
+					return false
+				}
+				return true
+			}
+			okOff := isReaderCall(frameField(a, "Offset"), "Left")
+			okSize := isReaderCall(frameField(a, "Size"), "Size")
+			r.Check(okOff && okSize, "sendData/meta-frame", a.Pos(), "the META frame must announce the reader's own position and size (Offset = reader.Left(): %v, Size = reader.Size(): %v): the follower files what it receives under these values", okOff, okSize)
+		}
+	}
+	if n == 0 {
+		r.Fail("sendData/meta-frame", sd.Pos(), "no META frame is sent before the data")
+	}
+}
+
 func ruleSendData(w *core.World, r *core.Report, sd *ssa.Function) {
+	ruleMetaFrame(w, r, sd)
 	// R16.3
 	r.Rule("R16.3", "", 1)
 	n := 0
@@ -468,6 +522,12 @@ func ruleFollowerWriters(w *core.World, r *core.Report) {
 				nw = s
 				a := s.Args()
 				r.Check(len(a) == 3 && flowAll(a[1], isRespGetter("GetOffset", resp)) && flowAll(a[2], isRespGetter("GetSize", resp)), "rdbSync/writer-start", s.Pos(), "the snapshot writer must start at the META frame's offset with its size")
+				// ... read before the receiving goroutine, which counts the size down, exists
+				for k := 1; k < len(a); k++ {
+					if who := writtenByEarlierClosure(a[k], s.Instr); who != "" {
+						r.Fail("rdbSync/writer-start-unshared", s.Pos(), "an argument of the snapshot writer is a variable that %s, started before the writer is created, modifies: frames received meanwhile shrink the size the writer is told, and a truncated snapshot is committed as complete", who)
+					}
+				}
 			}
 		}
 		if n == 0 {
@@ -697,6 +757,36 @@ func sameOrigin(a, b ssa.Value) bool {
 
 // flowAll: every value that can reach v (loads of local cells resolved by
 // reaching stores) satisfies pred.
+// writtenByEarlierClosure: v is a load of a variable that a closure writes, and that closure is created
+// on some path before `at` (not strictly after it): the name of the closure, "" otherwise.
+func writtenByEarlierClosure(v ssa.Value, at ssa.Instruction) string {
+	ld, ok := core.Unwrap(v).(*ssa.UnOp)
+	if !ok || ld.Op != token.MUL {
+		return ""
+	}
+	cell, ok := ld.X.(*ssa.Alloc)
+	if !ok {
+		return ""
+	}
+	for _, st := range core.CellStores(cell) {
+		if st.Parent() == at.Parent() {
+			continue
+		}
+		cl := st.Parent()
+		for cl.Parent() != nil && cl.Parent() != at.Parent() {
+			cl = cl.Parent()
+		}
+		for _, in := range core.OwnInstrs(at.Parent()) {
+			if mc, ok := in.(*ssa.MakeClosure); ok && mc.Fn == ssa.Value(cl) {
+				if !core.Dominates(at, mc) {
+					return "a goroutine (" + cl.Name() + ")"
+				}
+			}
+		}
+	}
+	return ""
+}
+
 func flowAll(v ssa.Value, pred func(ssa.Value) bool) bool {
 	vals := core.FlowVals(core.Unwrap(v))
 	if len(vals) == 0 {
